@@ -156,7 +156,16 @@ func checkC18(c c18Case, rec *Rec) *Violation {
 	}
 	// through the DNS engine, together with a second line that shares a name
 	other := "10.9.8.7 other.example " + c.Names[0]
-	st, err := filterlist.NewRuleStorage([]filterlist.RuleList{&filterlist.StringRuleList{ID: 3, RulesText: line + "\n" + other + "\n"}})
+	lineNames := map[string][]string{strings.TrimSpace(line): c.Names, other: {"other.example", c.Names[0]}}
+	text := line + "\n" + other + "\n"
+	if len(c.Names) >= 2 {
+		third := "10.9.8.6 third.example " + c.Names[1]
+		fourth := "::2 " + c.Names[len(c.Names)-1] + " " + c.Names[0]
+		lineNames[third] = []string{"third.example", c.Names[1]}
+		lineNames[fourth] = []string{c.Names[len(c.Names)-1], c.Names[0]}
+		text += third + "\n" + fourth + "\n"
+	}
+	st, err := filterlist.NewRuleStorage([]filterlist.RuleList{&filterlist.StringRuleList{ID: 3, RulesText: text}})
 	if err != nil {
 		return viol(id, "C18:harness", "storage: %v", err)
 	}
@@ -169,6 +178,19 @@ func checkC18(c c18Case, rec *Rec) *Violation {
 			return viol(id, c18Sig(c, "C18:match-differs"), "line %q: HostRule.Match(%q)=%v, listed=%v", line, p, got, listed[p])
 		}
 		res, _ := d.Match(p)
+		// every line naming p, and no other, is answered
+		wantLines, gotLines := map[string]bool{}, map[string]bool{}
+		for ln, names := range lineNames {
+			if inList(p, names) {
+				wantLines[ln] = true
+			}
+		}
+		for _, x := range append(append([]*rules.HostRule{}, res.HostRulesV4...), res.HostRulesV6...) {
+			gotLines[x.Text()] = true
+		}
+		if !sameSet(wantLines, gotLines) {
+			return viol(id, c18Sig(c, "C18:engine-lines-differ"), "list %q: DNSEngine.Match(%q) returns the lines %q, the lines naming it are %q", text, p, sortedKeys(gotLines), sortedKeys(wantLines))
+		}
 		in4, in6 := false, false
 		for _, x := range res.HostRulesV4 {
 			if x.Text() == strings.TrimSpace(line) {
